@@ -39,6 +39,10 @@ RULES = {
     "C14-A1": "a full turn `2*pi*x/T` in a closed generator is divided by the trip count of the loop variable x it multiplies "
               "(otherwise the seam does not close when the two resolutions differ)",
     "C14-W1": "chain_of_vertices: `loop=True` takes the wrapping pairs, `loop=False` the non-wrapping ones, over all vertices",
+    "C14-R1": "ring: the apex-height search can reach every admissible angle defect: either the loop has an update that moves a "
+              "bracket end outside the current bracket (not a convex combination of the two ends), taken when the target exceeds "
+              "the defect at the upper end, or the initial upper end is at least 2*pi/(2*pi - max_defect) high "
+              "(a loop that only shrinks [P1,P2] cannot leave its initial bracket)",
     "C14-D1": "vertex coordinates of the sphere / torus / cylinder generators have length-degree 1, sums are homogeneous, the result is "
               "translated by the centre (affine weight 1) and depends on every radius / centre / end-point parameter",
 }
@@ -136,10 +140,12 @@ def run(ctx):
     q1_corners(ctx)
     a1_full_turn(ctx)
     w1_chain(ctx)
+    r1_ring_bracket(ctx)
     ctx.declare_unsupported("unit_triangle: triangular loop nest with `break` and a floor-divided row offset (no index rule applied)")
     ctx.declare_unsupported("sphere_fibonacci: connectivity comes from scipy ConvexHull (only C14-D1 on the coordinates)")
     ctx.declare_unsupported("dual_mesh: faces are vertex_to_faces() rings of the input mesh (data dependent)")
-    ctx.declare_unsupported("ring: apex placement by bisection on the angle defect (numeric loop)")
+    ctx.declare_unsupported("ring: convergence / accuracy of the apex bisection (numeric loop); only the reachability of the "
+                            "bracket is decided (C14-R1)")
     ctx.declare_unsupported("chain_of_vertices: edges come from utils.iterators (cyclic/consecutive pairs), not index arithmetic")
     # the unsupported generators must still exist (fail closed if they vanish)
     for key in [(FLAT, "unit_triangle"), (SHAPES, "sphere_fibonacci"), ("procedural.dual", "dual_mesh"), (LINES, "chain_of_vertices")]:
@@ -771,3 +777,114 @@ def w1_chain(ctx):
                   "every vertex must be linked", note="pairs over range(len(vertices))")
     if not found:
         ctx.fail("C14-W1", site, "chain_of_vertices: branch on the `loop` switch not found", "")
+
+
+# ----------------------------------------------------------------------- C14-R1
+def r1_ring_bracket(ctx):
+    import math
+    from .. import order
+    fn = ctx.repo.func(RINGS, "ring")
+    site = ctx.site(RINGS, fn)
+    b = sym.Bindings(fn)
+    loops = [st for st in fn.body if isinstance(st, ast.While)]
+    # the apex store: M.vertices[0] = combination of the two bracket ends
+    ends = None
+    for st in fn.body:
+        if isinstance(st, ast.Assign) and isinstance(st.targets[0], ast.Subscript) and isinstance(st.targets[0].value, ast.Attribute) \
+                and st.targets[0].value.attr == "vertices" and loops and st.lineno > loops[-1].lineno:
+            try:
+                P = sym.to_poly(st.value, opaque=False)
+            except sym.NotPoly:
+                continue
+            if len(P.atoms()) == 2 and all(P.degree_in(a) == 1 for a in P.atoms()):
+                ends = sorted(P.atoms())
+    if len(loops) != 1 or ends is None:
+        _LOST.add("C14-R1")
+        ctx.fail("C14-R1", site, "ring: apex search loop and its two bracket ends (apex = (P1 + P2)/2) not found",
+                 f"{len(loops)} while loop(s); the apex height must be searched so that the requested angle defect is met")
+        return
+    loop = loops[0]
+    # initial heights of the two ends: literal Vec(0, 0, h) before the loop
+    init = {}
+    for st in fn.body:
+        if st is loop:
+            break
+        for name, v in sym.split_assign(st):
+            if name in ends and isinstance(v, ast.Call) and au.call_tail(v) == "Vec" and len(v.args) == 3:
+                h = order.fold_const(v.args[2])
+                if h is not None and order.fold_const(v.args[0]) == 0 and order.fold_const(v.args[1]) == 0:
+                    init[name] = h
+    if set(init) != set(ends):
+        _LOST.add("C14-R1")
+        ctx.fail("C14-R1", site, "ring: initial bracket of the apex search (two literal points on the axis) not found", f"ends {ends}, found {init}")
+        return
+    upper = max(ends, key=lambda k: init[k])
+    # updates of the ends inside the loop
+    updates = []
+    for st in au.stmts(loop.body):
+        for name, v in sym.split_assign(st):
+            if name in ends:
+                updates.append((st, name, v))
+    if not updates:
+        _LOST.add("C14-R1")
+        ctx.fail("C14-R1", site, "ring: the search loop never updates its bracket", "")
+        return
+    extension = None
+    for st, name, v in updates:
+        e = G.fast_resolve(b, v, st, keep=tuple(ends))
+        try:
+            P = sym.to_poly(e, opaque=False)
+        except sym.NotPoly:
+            P = None
+        convex = False
+        if P is not None and P.atoms() <= set(ends) and all(len(k) == 1 for k in P.t):
+            cs = [P.coeff(a).const_value() for a in ends]
+            convex = sum(cs) == 1 and all(0 <= c <= 1 for c in cs)
+        if not convex and name == upper:
+            extension = (st, name, v)
+    if extension is not None:
+        st, name, v = extension
+        # guard: target compared with the defect evaluated at the upper end, target larger
+        tests = [t for t, pol in au.guards(st, stop=loop) if pol]
+        target = au.params(fn)[1] if len(au.params(fn)) > 1 else None
+        ok = False
+        for t in tests:
+            if isinstance(t, ast.Compare) and len(t.ops) == 1:
+                l, r = t.left, t.comparators[0]
+                if isinstance(t.ops[0], (ast.Lt, ast.LtE)):
+                    l, r = r, l
+                elif not isinstance(t.ops[0], (ast.Gt, ast.GtE)):
+                    continue
+                # l > r : l is the target, r depends on the upper end
+                lr = G.fast_resolve(b, l, st, keep=(target,))
+                rr = G.fast_resolve(b, r, st, keep=tuple(ends))
+                if isinstance(l, ast.Name) and l.id == target and upper in au.names(rr) and not (set(ends) - {upper}) & au.names(rr):
+                    ok = True
+        ctx.check(ok, "C14-R1", ctx.site(RINGS, fn, st),
+                  "ring: the bracket extension is not taken exactly when the requested defect exceeds the defect at the upper end",
+                  f"`{au.src(st)}` under {[au.src(t) for t in tests]}: the upper end must grow when (and only when) the target lies above it",
+                  note=f"ring: `{au.src(st)}` extends the bracket when the target exceeds the defect at {upper}")
+        return
+    # shrink-only loop: the initial bracket must already contain every admissible apex
+    eps = None
+    for st in fn.body:
+        for name, v in sym.split_assign(st):
+            if name == "max_defect" or (isinstance(v, ast.BinOp) and isinstance(v.op, ast.Sub) and order.fold_const(v) is not None
+                                        and 6.0 < order.fold_const(v) < 2 * math.pi):
+                c = order.fold_const(v)
+                if c is not None:
+                    eps = 2 * math.pi - c
+    H = init[upper]
+    need = math.sqrt(max((2 * math.pi / eps) ** 2 - 1, 0)) if eps else float("inf")
+    wit = ""
+    if H < need:
+        # witness computed from the closed form of the defect of a regular N-ring with apex at height H
+        N = 6
+        th = math.acos((math.cos(2 * math.pi / N) + H * H) / (1 + H * H))
+        wit = (f"; witness N={N}: the largest defect reachable with the apex at height {H:g} is {2 * math.pi - N * th:.4f}, "
+               f"any larger requested defect (up to {2 * math.pi - (eps or 0):.4f}) gets that apex instead of its own")
+    ctx.check(H >= need, "C14-R1", ctx.site(RINGS, fn, loop),
+              "ring: the apex search only shrinks its initial bracket, which does not contain every admissible apex height",
+              f"every update of {ends} is a convex combination of the two ends, so the apex stays below the initial height {H:g}; "
+              f"defects up to 2*pi-{eps if eps else '?'} need heights up to {need:.1f}" + wit,
+              note=f"ring: fixed bracket up to {H:g} covers all admissible defects")
